@@ -94,7 +94,8 @@ def match_finding(findings, prop, signature):
 
 
 def write_evidence(ctx, nviol):
-    os.makedirs(os.path.join(HOME, "evidence"), exist_ok=True)
+    evdir = os.environ.get("VERIF_EVIDENCE") or os.path.join(HOME, "evidence")
+    os.makedirs(evdir, exist_ok=True)
     cov = ctx.coverage
     if not cov["samples"]:
         cov["samples"] = ["(no sample recorded)"]
@@ -106,7 +107,7 @@ def write_evidence(ctx, nviol):
     ev = {"property_id": ctx.prop, "tier": ctx.tier, "seed": ctx.seed, "level": "model_checking",
           "coverage": cov, "assumptions": ctx.assumptions, "wall_s": round(time.time() - ctx.t0, 2),
           "violations": nviol}
-    with open(os.path.join(HOME, "evidence", ctx.prop + ".json"), "w") as f:
+    with open(os.path.join(evdir, ctx.prop + ".json"), "w") as f:
         json.dump(ev, f, indent=1, default=str)
         f.write("\n")
 
@@ -139,7 +140,8 @@ def main():
     for v in ctx.violations:
         seen.setdefault(v["signature"], v)
     new = 0
-    os.makedirs(os.path.join(HOME, "out", "replay"), exist_ok=True)
+    outdir = os.environ.get("VERIF_OUT") or os.path.join(HOME, "out")
+    os.makedirs(os.path.join(outdir, "replay"), exist_ok=True)
     for sig, v in sorted(seen.items()):
         f = match_finding(findings, prop, sig)
         if f:
@@ -147,7 +149,7 @@ def main():
             continue
         new += 1
         h = hashlib.sha1(sig.encode()).hexdigest()[:10]
-        path = os.path.join(HOME, "out", "replay", "%s_%s.json" % (prop, h))
+        path = os.path.join(outdir, "replay", "%s_%s.json" % (prop, h))
         with open(path, "w") as fp:
             json.dump({"property": prop, "signature": sig, "what": v["what"], "case": v["case"]},
                       fp, indent=1, default=str)
